@@ -293,6 +293,7 @@ def junk_names(kw) -> List[Any]:
     """Names for rows that are not states — including the ids the library's own fresh-state
     counters would pick next (collision with `_add_new_state`)."""
     ints = [q for q in kw["states"] if isinstance(q, int) and not isinstance(q, bool)]
+    # (None is not among them: a row keyed by None is refused since fix f47420f — it is a corruption)
     cands = [FOREIGN_STATE, 7, "junk", len(kw["states"]), (max(ints) + 1) if ints else 0, 0, 1, -1]
     return [c for c in cands if c not in kw["states"]]
 
@@ -348,7 +349,7 @@ def accepted_by_docs(cls: str, kw: Dict[str, Any]) -> bool:
         return False
     # reserved names (fa.py `_validate_reserved_names`, pda.py `validate`): None marks "no state",
     # the empty string marks a lambda transition / an empty stack
-    if cls in ("DFA", "NFA") and (None in st or "" in kw["input_symbols"]):
+    if cls in ("DFA", "NFA") and (None in st or None in T or "" in kw["input_symbols"]):
         return False
     if cls in ("DPDA", "NPDA") and "" in kw["stack_symbols"]:
         return False
@@ -452,11 +453,16 @@ def corruptions(cls: str, kw: Dict[str, Any]) -> Iterator[Tuple[str, str, Callab
 
     # --- shared: initial / final states
     yield ("initial_state_not_a_state", "InvalidStateError", mk(lambda k: k.__setitem__("initial_state", FOREIGN_STATE)))
+    # the library's own "no state" marker as the foreign name (None is not a state of a valid definition)
+    yield ("initial_state_not_a_state", "InvalidStateError", mk(lambda k: k.__setitem__("initial_state", None)))
     if cls == "GNFA":
         yield ("final_state_not_a_state", "InvalidStateError", mk(lambda k: k.__setitem__("final_state", FOREIGN_STATE)))
+        yield ("final_state_not_a_state", "InvalidStateError", mk(lambda k: k.__setitem__("final_state", None)))
     else:
         yield ("final_state_not_a_state", "InvalidStateError",
                mk(lambda k: k.__setitem__("final_states", set(k["final_states"]) | {FOREIGN_STATE})))
+        yield ("final_state_not_a_state", "InvalidStateError",
+               mk(lambda k: k.__setitem__("final_states", set(k["final_states"]) | {None})))
         yield ("final_state_not_a_state", "InvalidStateError",
                mk(lambda k: k.__setitem__("final_states", {FOREIGN_STATE2})))
 
@@ -470,6 +476,13 @@ def corruptions(cls: str, kw: Dict[str, Any]) -> Iterator[Tuple[str, str, Callab
         for q in st:
             yield ("reserved_state_name_none", "InvalidStateError",
                    mk(lambda k, q=q: rename_state(cls, k, q, None)))
+        # a row keyed by None (rows keyed by other names that are not states are accepted): a copy of
+        # an existing row — obeys every rule for rows — or an empty one, at the end / the front of the table
+        for q in list(T)[:2]:
+            yield ("reserved_state_name_none", "InvalidStateError",
+                   mk(lambda k, q=q: k["transitions"].__setitem__(None, _dc(k["transitions"][q]))))
+        yield ("reserved_state_name_none", "InvalidStateError",
+               mk(lambda k: k.__setitem__("transitions", {None: {}, **k["transitions"]})))
         yield ("reserved_input_symbol_empty", "InvalidSymbolError",
                mk(lambda k: k.__setitem__("input_symbols", set(k["input_symbols"]) | {""})))
         for a in sorted(kw["input_symbols"]):
@@ -492,8 +505,13 @@ def corruptions(cls: str, kw: Dict[str, Any]) -> Iterator[Tuple[str, str, Callab
                            mk(lambda k, q=q, a=a: k["transitions"][q].pop(a)))
                 yield ("unknown_end_state", "InvalidStateError",
                        mk(lambda k, q=q, a=a: k["transitions"][q].__setitem__(a, FOREIGN_STATE)))
+                # a transition *into None* (the library's "no state" marker; not a state)
+                yield ("unknown_end_state", "InvalidStateError",
+                       mk(lambda k, q=q, a=a: k["transitions"][q].__setitem__(a, None)))
             yield ("unknown_transition_symbol", "InvalidSymbolError",
                    mk(lambda k, q=q: k["transitions"][q].__setitem__(fs, st[0])))
+            yield ("unknown_transition_symbol", "InvalidSymbolError",
+                   mk(lambda k, q=q: k["transitions"][q].__setitem__(None, st[0])))  # a transition *on None*
     elif cls == "NFA":
         if len(st) > 1 and kw["initial_state"] in T:
             yield ("initial_state_without_transitions", "MissingStateError",
@@ -501,9 +519,13 @@ def corruptions(cls: str, kw: Dict[str, Any]) -> Iterator[Tuple[str, str, Callab
         for q, row in T.items():
             yield ("unknown_transition_symbol", "InvalidSymbolError",
                    mk(lambda k, q=q: k["transitions"][q].__setitem__(fs, {st[0]})))
+            yield ("unknown_transition_symbol", "InvalidSymbolError",
+                   mk(lambda k, q=q: k["transitions"][q].__setitem__(None, {st[0]})))  # a transition *on None*
             for a in row:
                 yield ("unknown_end_state", "InvalidStateError",
                        mk(lambda k, q=q, a=a: k["transitions"][q].__setitem__(a, set(k["transitions"][q][a]) | {FOREIGN_STATE})))
+                yield ("unknown_end_state", "InvalidStateError",
+                       mk(lambda k, q=q, a=a: k["transitions"][q].__setitem__(a, set(k["transitions"][q][a]) | {None})))
     elif cls == "GNFA":
         init, fin = kw["initial_state"], kw["final_state"]
         if len(st) > 1:
@@ -538,6 +560,8 @@ def corruptions(cls: str, kw: Dict[str, Any]) -> Iterator[Tuple[str, str, Callab
     elif cls in ("DPDA", "NPDA"):
         yield ("invalid_initial_stack_symbol", "InvalidSymbolError",
                mk(lambda k: k.__setitem__("initial_stack_symbol", fs)))
+        yield ("invalid_initial_stack_symbol", "InvalidSymbolError",
+               mk(lambda k: k.__setitem__("initial_stack_symbol", "")))
         for bad in ("foo", "", "final", "BOTH", None, 0):
             yield ("invalid_acceptance_mode", "InvalidAcceptanceModeError",
                    mk(lambda k, bad=bad: k.__setitem__("acceptance_mode", bad)))
@@ -552,6 +576,10 @@ def corruptions(cls: str, kw: Dict[str, Any]) -> Iterator[Tuple[str, str, Callab
             for a, m in row.items():
                 yield ("invalid_stack_symbol", "InvalidSymbolError",
                        mk(lambda k, q=q, a=a: k["transitions"][q][a].__setitem__(fs, val)))
+                # the empty string is the lambda marker for *input* symbols only: as a stack-symbol
+                # key it is just a symbol that is not in the stack alphabet
+                yield ("invalid_stack_symbol", "InvalidSymbolError",
+                       mk(lambda k, q=q, a=a: k["transitions"][q][a].__setitem__("", val)))
                 if cls == "DPDA":
                     for g in m:
                         if a != "" and g not in row.get("", {}):
@@ -572,6 +600,7 @@ def corruptions(cls: str, kw: Dict[str, Any]) -> Iterator[Tuple[str, str, Callab
         yield ("input_symbols_not_proper_subset", "MissingSymbolError",
                mk(lambda k: k.__setitem__("input_symbols", set(k["tape_symbols"]))))
         yield ("bad_blank_symbol", "InvalidSymbolError", mk(lambda k: k.__setitem__("blank_symbol", fs)))
+        yield ("bad_blank_symbol", "InvalidSymbolError", mk(lambda k: k.__setitem__("blank_symbol", "")))
         yield ("initial_state_is_final", "InitialStateError",
                mk(lambda k: k.__setitem__("final_states", set(k["final_states"]) | {k["initial_state"]})))
         if len(st) > 1:
@@ -606,6 +635,8 @@ def corruptions(cls: str, kw: Dict[str, Any]) -> Iterator[Tuple[str, str, Callab
                        mk(lambda k, q=q, s=s: k["transitions"][q].__setitem__(key(s), result(t=FOREIGN_STATE))))
                 yield ("bad_tape_symbol", "InvalidSymbolError",
                        mk(lambda k, q=q, s=s: k["transitions"][q].__setitem__(key(s), result(w=fs))))
+                yield ("bad_tape_symbol", "InvalidSymbolError",
+                       mk(lambda k, q=q, s=s: k["transitions"][q].__setitem__(key(s), result(w=""))))
                 for bad in ("X", "", "l", "LR", None):
                     yield ("bad_direction", "InvalidDirectionError",
                            mk(lambda k, q=q, s=s, bad=bad: k["transitions"][q].__setitem__(key(s), result(d=bad))))
@@ -728,6 +759,11 @@ def odd_accepted_shapes(cls: str, kw: Dict[str, Any]) -> Iterator[Tuple[str, Dic
             k["transitions"][q].setdefault(sorted(kw["input_symbols"])[0], {})[g0] = res if cls == "DPDA" else {res}
             if accepted_det(cls, k):
                 yield ("pda-unknown-pushed-symbol", k)
+            k = _dc(kw)
+            res = (st[0], ("", g0))  # the empty string pushed as a stack symbol (pushes are not validated)
+            k["transitions"][q].setdefault(sorted(kw["input_symbols"])[0], {})[g0] = res if cls == "DPDA" else {res}
+            if accepted_det(cls, k):
+                yield ("pda-empty-string-pushed", k)
     if cls in ("DTM", "NTM", "MNTM"):
         k = _dc(kw)
         k["input_symbols"] = set(k["input_symbols"]) | {k["blank_symbol"]}
